@@ -47,15 +47,21 @@ func (k *Keys) GetCursorPos() (x, y int) {
 			return disable()
 		}
 
+		// Everything around the cursor response is user input, which might
+		// have been typed before or after the terminal answered our query.
+		report, input := k.extractCursorPos(cursor)
+
+		if len(input) > 0 {
+			k.mutex.RLock()
+			k.buf = append(k.buf, input...)
+			k.mutex.RUnlock()
+		}
+
 		// Attempt to locate cursor response in it.
-		match = rxRcvCursorPos.FindAllStringSubmatch(string(cursor), 1)
+		match = rxRcvCursorPos.FindAllStringSubmatch(string(report), 1)
 
 		// If there is something but not cursor answer, its user input.
-		if len(match) == 0 && len(cursor) > 0 {
-			k.mutex.RLock()
-			k.buf = append(k.buf, cursor...)
-			k.mutex.RUnlock()
-
+		if len(match) == 0 && len(input) > 0 {
 			continue
 		}
 
